@@ -2,6 +2,7 @@
 //! Sub-commands are the files of src/props/ (see build.rs).
 pub mod util;
 pub mod live;
+pub mod dwline;
 mod props { include!(concat!(env!("OUT_DIR"), "/dispatch.rs")); }
 
 fn main() {
